@@ -306,18 +306,18 @@ class FakeSocket:
         type = None
         count = 10
         if len(args) % 2 != 0:
-            raise SimpleError(msgs.msgs.SYNTAX_ERROR_MSG)
+            raise SimpleError(msgs.SYNTAX_ERROR_MSG)
         for i in range(0, len(args), 2):
             if casematch(args[i], b'match'):
                 pattern = args[i + 1]
             elif casematch(args[i], b'count'):
                 count = Int.decode(args[i + 1])
                 if count <= 0:
-                    raise SimpleError(msgs.msgs.SYNTAX_ERROR_MSG)
+                    raise SimpleError(msgs.SYNTAX_ERROR_MSG)
             elif casematch(args[i], b'type'):
                 type = args[i + 1]
             else:
-                raise SimpleError(msgs.msgs.SYNTAX_ERROR_MSG)
+                raise SimpleError(msgs.SYNTAX_ERROR_MSG)
 
         if cursor >= len(keys):
             return [0, []]
